@@ -202,7 +202,22 @@ def _web_call(op):
             names[k] = "web-%s.ipynb" % k
             with open(os.path.join(cwd, names[k]), "w", encoding="utf8") as f:
                 json.dump(op[k], f)
-    if op["op"] == "web_diff":
+    app = _WEB["app"]
+    if op["op"] == "web_tool_diff":
+        # `nbdiff-web REV REV`: the two notebooks are in-memory blob streams handed to the server at start-up and kept for
+        # its lifetime; every request (a page reload) must be answered like the first
+        from nbdime.gitfiles import BlobWrapper
+        key = core.sha([cwd, op["a"], op["b"]])
+        if key not in _WEB.setdefault("tools", {}):
+            streams = {}
+            for side, k in (("base", "a"), ("remote", "b")):
+                st = BlobWrapper(json.dumps(op[k]))
+                st.name = "web-%s.ipynb (rev)" % k
+                streams[side] = st
+            _WEB["tools"][key] = srv.make_app(cwd=cwd, closable=False, difftool_args=streams)
+        app = _WEB["tools"][key]
+        uri, body = "/api/diff", {}
+    elif op["op"] == "web_diff":
         uri, body = "/api/diff", {"base": names["a"], "remote": names["b"]}
     else:
         uri, body = "/api/merge", {"base": names["base"], "local": names["local"], "remote": names["remote"]}
@@ -213,7 +228,6 @@ def _web_call(op):
         req = httputil.HTTPServerRequest(method="POST", uri=uri, version="HTTP/1.1",
                                          headers=httputil.HTTPHeaders({"Content-Type": "application/json", "Host": "localhost"}),
                                          body=json.dumps(body).encode("utf8"), host="localhost", connection=conn)
-        app = _WEB["app"]
         delegate = app.find_handler(req)
         handler = delegate.handler_class(app, req, **delegate.handler_kwargs)
         transforms = [t(req) for t in app.transforms]
@@ -249,7 +263,7 @@ def perform(op):
         elif op["op"] == "decide":
             b, l, r = (load(op[k]) for k in ("base", "local", "remote"))
             val = decide_notebook_merge(b, l, r, _ns(dict(op.get("args", {}), merge_strategy="mergetool")))
-        elif op["op"] in ("web_diff", "web_merge"):
+        elif op["op"] in ("web_diff", "web_merge", "web_tool_diff"):
             val = _web_call(op)
         else:
             raise HarnessError("not a compared op: %r" % op["op"])
@@ -416,14 +430,20 @@ def generate(rng, index, cfg):
 
     issued = []
 
+    pending = []
+
     def compared():
+        if pending and rng.random() < 0.7:
+            return pending.pop(0)
         if issued and rng.random() < swarm.get("p_repeat", 0.0):
             return copy.deepcopy(rng.choice(issued))      # the same call again, later in the history
         op = _compared()
         if swarm.get("web") and rng.random() < 0.5:
             # the same question asked through the web application's API handlers (one application for the whole history)
             if op["op"] == "diff":
-                op = {"op": "web_diff", "a": op["a"], "b": op["b"]}
+                op = {"op": rng.choice(["web_diff", "web_diff", "web_tool_diff"]), "a": op["a"], "b": op["b"]}
+                if op["op"] == "web_tool_diff":
+                    pending.append(copy.deepcopy(op))      # the same server is asked again later (a page reload)
             else:
                 op = {"op": "web_merge", "base": op["base"], "local": op["local"], "remote": op["remote"]}
         elif rng.random() < 0.12:
@@ -528,7 +548,7 @@ def generate(rng, index, cfg):
 
 # ------------------------------------------------------------------ execution
 
-COMPARED = ("diff", "merge", "decide", "web_diff", "web_merge")
+COMPARED = ("diff", "merge", "decide", "web_diff", "web_merge", "web_tool_diff")
 
 
 def _inline(op, pool):
